@@ -439,7 +439,7 @@ def rope_eq(a, b):
     solver terms for blob offsets/lengths and symbolic bytes."""
     la, lb = a.length_term(), b.length_term()
     conj = []
-    sa, sb = list(a.segs), list(b.segs)
+    sa, sb = _merge_semantic(list(a.segs)), _merge_semantic(list(b.segs))
     # fast path: identical structure
     while sa and sb:
         x, y = sa[0], sb[0]
@@ -484,6 +484,26 @@ def rope_eq(a, b):
         rest = sa or sb
         conj.append(z3.Sum([s.length() for s in rest]) == 0 if len(rest) > 1 else rest[0].length() == 0)
     return V.wrap(z3.And(*conj)) if conj else True
+
+
+def _merge_semantic(segs):
+    """merge adjacent slices of the same base blob that the path condition
+    proves contiguous (the syntactic merge of _norm misses those)"""
+    if len(segs) < 2:
+        return segs
+    out = [segs[0]]
+    for s in segs[1:]:
+        p = out[-1]
+        if isinstance(p, Slice) and isinstance(s, Slice) and p.base is s.base:
+            try:
+                ok, _ = ctx().must_hold(p.off + p.len == s.off)
+            except Unsupported:
+                ok = False
+            if ok:
+                out[-1] = Slice(p.base, p.off, p.len + s.len)
+                continue
+        out.append(s)
+    return out
 
 
 def _slow_eq(a, b):
